@@ -38,7 +38,13 @@ CONSTANTS
 Now == 2
 Markers == {"plain", "ca", "revoked"}
 Matches == {"name", "port", "both", "none"}
-Line == [marker : Markers, match : Matches, key : LineKeys]
+(* where a line lives: "arg" = the known_hosts= argument (file content,   *)
+(* object, callable, key lists); otherwise the default ~/.ssh/known_hosts  *)
+(* ("udef") or a file named by UserKnownHostsFile / GlobalKnownHostsFile   *)
+(* in the client configuration                                             *)
+Srcs == IF Focus = "sources"
+        THEN {"udef", "ucfg1", "ucfg2", "gcfg1", "gcfg2"} ELSE {"arg"}
+Line == [marker : Markers, match : Matches, key : LineKeys, src : Srcs]
 
 (* validity windows [va, vb) around Now *)
 Windows == {"in", "startsNow", "endsNext", "notYet", "endsNow", "expired"}
@@ -57,7 +63,7 @@ PresCertAll == [kind : {"cert"}, key : {"K1"}, ca : {"CA1"},
                 princ : {"covers", "other", "empty"}, certSig : BOOLEAN,
                 holds : BOOLEAN]
 
-L(mk, mt, k) == [marker |-> mk, match |-> mt, key |-> k]
+L(mk, mt, k) == [marker |-> mk, match |-> mt, key |-> k, src |-> "arg"]
 CertFocusLines ==
     { <<L("ca", "name", "CA1")>>,
       <<L("ca", "name", "CA2")>>,
@@ -104,12 +110,25 @@ VARIABLES
     cbCA,       \* answer of SSHClient.validate_host_ca_key
     pres,       \* what the server presents and whether it can sign for it
     phase,      \* "connect" | "reply" | "accepted" | "rejected" | "auth"
-    credsSent
+    credsSent,
+    userSet,    \* UserKnownHostsFile: "na" (known_hosts= given) | "unset" |
+                \* "none" | "one" | "two" (files)
+    globalSet   \* GlobalKnownHostsFile: "na" | "unset" | "one" | "two"
 
-vars == <<lines, port, mode, cbKey, cbCA, pres, phase, credsSent>>
+vars == <<lines, port, mode, cbKey, cbCA, pres, phase, credsSent, userSet,
+          globalSet>>
+
+FileExists(src, u, g) ==
+    CASE src = "ucfg1" -> u \in {"one", "two"} [] src = "ucfg2" -> u = "two"
+      [] src = "gcfg1" -> g \in {"one", "two"} [] src = "gcfg2" -> g = "two"
+      [] OTHER -> TRUE
 
 Init ==
     /\ phase = "connect" /\ credsSent = FALSE
+    /\ IF Focus = "sources"
+       THEN /\ userSet \in {"unset", "none", "one", "two"}
+            /\ globalSet \in {"unset", "one", "two"}
+       ELSE userSet = "na" /\ globalSet = "na"
     /\ \/ /\ Focus = "lines"
           /\ lines \in AllLineSeqs /\ port \in {"def", "nondef"}
           /\ mode = "file" /\ cbKey = FALSE /\ cbCA = FALSE
@@ -128,6 +147,17 @@ Init ==
           /\ lines \in CbCertLines /\ port \in {"def", "nondef"}
           /\ mode = "file" /\ cbKey \in BOOLEAN /\ cbCA \in BOOLEAN
           /\ pres \in PresKey \cup PresCertAll
+       \/ /\ Focus = "sources"
+          \* the deciding lines split over the places trust data comes from
+          /\ lines \in UNION {[1..n -> {l \in Line :
+                                 /\ l.match = "name"
+                                 /\ FileExists(l.src, userSet, globalSet)}]
+                            : n \in 0..MaxLines}
+          /\ port = "def" /\ cbKey = FALSE /\ cbCA = FALSE
+          \* "UserKnownHostsFile none" is documented to switch host key
+          \* checking off, like known_hosts=None
+          /\ mode = IF userSet = "none" THEN "none" ELSE "file"
+          /\ pres \in {p \in PresKey \cup PresCertGood : p.holds}
        \/ /\ Focus = "trustall"
           /\ lines \in {<<>>, <<L("revoked", "both", "K1")>>,
                         <<L("revoked", "both", "CA1")>>}
@@ -155,16 +185,47 @@ Variants == {"dropPortRevoked", "orRevoked", "revokedPrimaryOnly",
              "trustAllSkipsSig", "noFallback",
              \* a callback may only widen WHICH key / CA is trusted
              "cbWaivesCertChecks", "cbWaivesType", "cbWaivesWindow",
-             "cbWaivesPrinc", "cbKeyForCert", "cbCAForKey"}
+             "cbWaivesPrinc", "cbKeyForCert", "cbCAForKey",
+             \* every consulted source counts: the decision is that of the
+             \* union of their lines
+             "globalOnlyFallback", "userOnlyFallback", "firstFileOnly",
+             "lastFileOnly", "globalRevokedIgnored", "userRevokedIgnored",
+             "defaultAlsoConsulted", "globalNeverConsulted"}
 
-LineSet == {lines[i] : i \in 1..Len(lines)}
+(* which sources are consulted (connection.py SSHClientConnectionOptions   *)
+(* .prepare: the files of UserKnownHostsFile followed by those of          *)
+(* GlobalKnownHostsFile, read into ONE SSHKnownHosts; the default          *)
+(* ~/.ssh/known_hosts only when neither the argument nor the configuration *)
+(* names anything)                                                         *)
+IsUser(src) == src \in {"ucfg1", "ucfg2"}
+IsGlobal(src) == src \in {"gcfg1", "gcfg2"}
+UserFiles == userSet \in {"one", "two"}
+GlobalFiles == globalSet \in {"one", "two"}
+Consulted(mu, l) ==
+    LET src == l.src IN
+    /\ FileExists(src, userSet, globalSet)
+    /\ CASE src = "arg" -> TRUE
+         [] src = "udef" -> \/ userSet = "unset" /\ globalSet = "unset"
+                            \/ mu = "defaultAlsoConsulted"
+         [] IsUser(src) -> ~(mu = "userOnlyFallback" /\ GlobalFiles)
+         [] OTHER -> /\ ~(mu = "globalOnlyFallback" /\ UserFiles)
+                     /\ mu # "globalNeverConsulted"
+    /\ (mu = "firstFileOnly" => src \notin {"ucfg2", "gcfg2"})
+    /\ (mu = "lastFileOnly" =>
+            /\ ~(src = "ucfg1" /\ userSet = "two")
+            /\ ~(src = "gcfg1" /\ globalSet = "two"))
+    /\ ~(mu = "globalRevokedIgnored" /\ IsGlobal(src) /\ l.marker = "revoked")
+    /\ ~(mu = "userRevokedIgnored" /\ IsUser(src) /\ l.marker = "revoked")
+LineSetOf(mu) == {lines[i] : i \in {j \in 1..Len(lines) :
+                                      Consulted(mu, lines[j])}}
 InPrimary(l) == IF port = "nondef" THEN l.match \in {"port", "both"}
                 ELSE l.match \in {"name", "both"}
 InPlain(l) == l.match \in {"name", "both"}
-KeysOf(mk, sel(_)) == {l.key : l \in {x \in LineSet : x.marker = mk /\ sel(x)}}
+KeysOf(mu, mk, sel(_)) ==
+    {l.key : l \in {x \in LineSetOf(mu) : x.marker = mk /\ sel(x)}}
 
 PrimaryHasTrust(mu) ==
-    \E l \in LineSet : /\ InPrimary(l)
+    \E l \in LineSetOf(mu) : /\ InPrimary(l)
                        /\ l.marker \in (CASE mu = "fbIgnoresCA" -> {"plain"}
                                           [] mu = "fbIgnoresKeys" -> {"ca"}
                                           [] OTHER -> {"plain", "ca"})
@@ -177,19 +238,19 @@ Eff(mu, l) == IF mu = "unionLookup" /\ port = "nondef"
 
 TrustedKeys(mu) ==
     LET e(l) == Eff(mu, l) IN
-    KeysOf("plain", e) \cup
-    (IF mu \in {"markerIgnored", "caAsHostKey"} THEN KeysOf("ca", e) ELSE {})
+    KeysOf(mu, "plain", e) \cup
+    (IF mu \in {"markerIgnored", "caAsHostKey"} THEN KeysOf(mu, "ca", e) ELSE {})
 TrustedCAs(mu) ==
     LET e(l) == Eff(mu, l) IN
-    KeysOf("ca", e) \cup (IF mu = "markerIgnored" THEN KeysOf("plain", e)
+    KeysOf(mu, "ca", e) \cup (IF mu = "markerIgnored" THEN KeysOf(mu, "plain", e)
                           ELSE {})
 (* @revoked lines: those of the lookup that produced the trusted sets, and  *)
 (* those found for [host]:port even when that lookup fell back              *)
 Revoked(mu) ==
     LET e(l) == Eff(mu, l)
-        eff  == KeysOf("revoked", e)
-        prim == KeysOf("revoked", InPrimary)
-        pln  == KeysOf("revoked", InPlain)
+        eff  == KeysOf(mu, "revoked", e)
+        prim == KeysOf(mu, "revoked", InPrimary)
+        pln  == KeysOf(mu, "revoked", InPlain)
     IN  CASE mu = "dropPortRevoked" -> eff
           [] mu = "orRevoked" -> IF Fallback(mu) /\ pln # {} THEN pln
                                  ELSE eff \cup prim
@@ -238,9 +299,9 @@ Decision == DecisionM(Mu)
 (* the property, written out *)
 TrustRule ==
     LET looked(l) == Eff("none", l)
-        trusted == KeysOf("plain", looked)
-        cas     == KeysOf("ca", looked)
-        revoked == KeysOf("revoked", looked) \cup KeysOf("revoked", InPrimary)
+        trusted == KeysOf("none", "plain", looked)
+        cas     == KeysOf("none", "ca", looked)
+        revoked == KeysOf("none", "revoked", looked) \cup KeysOf("none", "revoked", InPrimary)
     IN
     /\ pres.holds
     /\ \/ mode = "none" /\ (pres.kind = "cert" => pres.certSig)
@@ -253,19 +314,32 @@ TrustRule ==
           /\ pres.princ \in {"covers", "empty"}
 
 (* variants that would decide this case differently from the property *)
-Discriminates == {mu \in Variants : DecisionM(mu) # TrustRule}
+SourceVariants == {"globalOnlyFallback", "userOnlyFallback", "firstFileOnly",
+                   "lastFileOnly", "globalRevokedIgnored",
+                   "userRevokedIgnored", "defaultAlsoConsulted",
+                   "globalNeverConsulted"}
+CallbackVariants == {"cbWaivesCertChecks", "cbWaivesType", "cbWaivesWindow",
+                     "cbWaivesPrinc", "cbKeyForCert", "cbCAForKey",
+                     "cbKeyForRevoked", "cbCAForRevoked"}
+(* variants that cannot differ in a focus are not evaluated there *)
+ActiveVariants ==
+    (Variants \ (IF Focus = "sources" THEN {} ELSE SourceVariants))
+        \ (IF Focus \in {"callbacks", "cbcert"} THEN {} ELSE CallbackVariants)
+Discriminates == {mu \in ActiveVariants : DecisionM(mu) # TrustRule}
 
 -----------------------------------------------------------------------------
 Connect ==
     /\ phase = "connect" /\ phase' = "reply"
-    /\ UNCHANGED <<lines, port, mode, cbKey, cbCA, pres, credsSent>>
+    /\ UNCHANGED <<lines, port, mode, cbKey, cbCA, pres, credsSent, userSet,
+                   globalSet>>
 Decide ==
     /\ phase = "reply"
     /\ phase' = IF Decision THEN "accepted" ELSE "rejected"
-    /\ UNCHANGED <<lines, port, mode, cbKey, cbCA, pres, credsSent>>
+    /\ UNCHANGED <<lines, port, mode, cbKey, cbCA, pres, credsSent, userSet,
+                   globalSet>>
 SendAuth ==
     /\ phase = "accepted" /\ phase' = "auth" /\ credsSent' = TRUE
-    /\ UNCHANGED <<lines, port, mode, cbKey, cbCA, pres>>
+    /\ UNCHANGED <<lines, port, mode, cbKey, cbCA, pres, userSet, globalSet>>
 Next == Connect \/ Decide \/ SendAuth
 Spec == Init /\ [][Next]_vars
 
@@ -280,7 +354,8 @@ Emitted ==
                  Discriminates,
                  \* the sets the lookup yields, for known_hosts given as
                  \* key lists / as a callable instead of as file content
-                 TrustedKeys("none"), TrustedCAs("none"), Revoked("none")>>)
+                 TrustedKeys("none"), TrustedCAs("none"), Revoked("none"),
+                 userSet, globalSet>>)
 
 NeverAccepted == phase # "accepted"
 NeverFallbackAccept == ~(phase = "accepted" /\ Fallback("none"))
